@@ -1,5 +1,6 @@
 //! vp: compiler / package-manager properties (everything except the text-only and LSP ones).
 mod asmprops;
+mod c17mut;
 mod irprops;
 mod optable;
 mod pkgprops;
@@ -33,9 +34,11 @@ fn main() {
                 "C04" => irprops::run_c04(&Ctx::new("C04", &tier)),
                 "C05" => irprops::run_c05(&Ctx::new("C05", &tier)),
                 "ir-dump" => irprops::dump_ir(&args[2..]),
+                "c17-child" => c17mut::child_main(),
                 "ir-parse" => irprops::dev_parse(&args[2..]),
                 "ir-passes" => irprops::dev_passes(&args[2..]),
                 "c01-replay" => progprops::dev_c01_replay(&args[2..]),
+                "gen-cost" => progprops::dev_cost(&args[2..]),
                 "gen-dump" => progprops::dump(&args[2..]),
                 "smoke" => smoke::run(&args[2..]),
                 "replay" => replay(&args[2]),
